@@ -16,11 +16,18 @@ Proved here - the lemmas the accept / reject simulation rests on:
   replaced text going to `old-text` (`C10_join_keeps_both_texts`); on texts without private-use
   characters `split_string` does not cut (`C08_split_plain`), so re-balancing leaves such
   segment lists alone.
-Not proved: the composition (accept (format L S) = patch L S, reject (format L S) = L) - it
+* one text update end to end at text level (`Proofs/TextMark.lean`, `Proofs/TextMark2.lean`): for an old and a new text
+  without private-use characters, on the maker state of any `do_tree` history, `_make_diff_tags` (no `use_replace`) on
+  the segments of the modelled `diff_main` + `diff_cleanupSemantic` (any bisect oracle) succeeds, and in what
+  `undo_string` - the `finalize` step - restores from the text it returns, accepting every wrapper spells the new
+  text (`C09_text_update_accept`) and rejecting every wrapper the old text (`C10_text_update_reject`); the same for
+  any engine answer made of equal / insert / delete segments (`C09_make_diff_tags_marks`).
+Not proved: the composition at tree level (accept (format L S) = patch L S, reject (format L S) = L) - it
 is decided on every run by the projection oracles on the real output; and it is *false* of
 the code for the two recorded findings (text after a comment, tail of a deleted / moved node).
 -/
 import XmlDiffModel.Proofs.XmlFormat
+import XmlDiffModel.Proofs.TextMark2
 
 namespace XmlDiffModel
 open Tree
@@ -44,6 +51,54 @@ theorem C08_split_plain (st : PhSt) (s : Str) (h : ∀ c ∈ s, st.isPh c = fals
     splitPh st s [] [] = [Sum.inl s] := by
   have := splitPh_plain st s [] [] h
   simpa using this
+
+open TextMark in
+/-- `_make_diff_tags` for any engine answer `d` of equal / insert / delete segments over texts without private-use
+characters, on the maker state of any `do_tree` history: the call consumes the answer, and what `undo_string` restores
+from the returned text spells the equal + insert segments when all changes are accepted and the equal + delete
+segments when all are rejected. -/
+theorem C09_make_diff_tags_marks (tt ft : List Str) (docs : List Tree) (s : FState)
+    (hph : s.ph = doTrees docs (phInit tt ft)) (hhi : s.ph.counter < 0x110000) (hu : s.useReplace = false)
+    (d : List Seg) (more : List (List Seg)) (hs : s.segs = d :: more)
+    (hn : ∀ x ∈ d, x.op ≠ .rep) (ho : ∀ x ∈ d, x.old = []) (hl : ∀ x ∈ d, ∀ c ∈ x.text, c.toNat ≤ phStart) :
+    ∃ out, makeDiffTags s false = .ok (out, { s with segs := more }) ∧
+      ∃ rt rs, (∃ N, ∀ f, N ≤ f → undoString f s.ph diffElemList out = .ok (rt, rs)) ∧
+        acceptOf (strOf rt) rs = accText d ∧ rejectOf (strOf rt) rs = rejText d :=
+  make_diff_tags_marks s (by rw [hph] at hhi ⊢; exact base_history tt ft docs hhi) hu d more hs hn ho hl
+
+open TextMark Dmp in
+/-- One text update, old text `a`, new text `b`: accepting every change spells `b`. -/
+theorem C09_text_update_accept (tt ft : List Str) (docs : List Tree) (s : FState)
+    (hph : s.ph = doTrees docs (phInit tt ft)) (hhi : s.ph.counter < 0x110000) (hu : s.useReplace = false)
+    (bis : Bisect) (a b : Str) (hlen : a.length + b.length + 3 ≤ 0xD800)
+    (hla : ∀ c ∈ a, c.toNat ≤ phStart) (hlb : ∀ c ∈ b, c.toNat ≤ phStart)
+    (more : List (List Seg)) (hs : s.segs = ofDiff (diffAndClean bis a b).2 :: more) :
+    ∃ out, makeDiffTags s false = .ok (out, { s with segs := more }) ∧
+      ∃ rt rs, (∃ N, ∀ f, N ≤ f → undoString f s.ph diffElemList out = .ok (rt, rs)) ∧
+        acceptOf (strOf rt) rs = b := by
+  obtain ⟨out, h1, rt, rs, h2, h3, _⟩ := text_update_accept_reject s
+    (by rw [hph] at hhi ⊢; exact base_history tt ft docs hhi) hu bis a b hlen hla hlb more hs
+  exact ⟨out, h1, rt, rs, h2, h3⟩
+
+open TextMark Dmp in
+/-- The same update: rejecting every change spells `a`. -/
+theorem C10_text_update_reject (tt ft : List Str) (docs : List Tree) (s : FState)
+    (hph : s.ph = doTrees docs (phInit tt ft)) (hhi : s.ph.counter < 0x110000) (hu : s.useReplace = false)
+    (bis : Bisect) (a b : Str) (hlen : a.length + b.length + 3 ≤ 0xD800)
+    (hla : ∀ c ∈ a, c.toNat ≤ phStart) (hlb : ∀ c ∈ b, c.toNat ≤ phStart)
+    (more : List (List Seg)) (hs : s.segs = ofDiff (diffAndClean bis a b).2 :: more) :
+    ∃ out, makeDiffTags s false = .ok (out, { s with segs := more }) ∧
+      ∃ rt rs, (∃ N, ∀ f, N ≤ f → undoString f s.ph diffElemList out = .ok (rt, rs)) ∧
+        rejectOf (strOf rt) rs = a := by
+  obtain ⟨out, h1, rt, rs, h2, _, h4⟩ := text_update_accept_reject s
+    (by rw [hph] at hhi ⊢; exact base_history tt ft docs hhi) hu bis a b hlen hla hlb more hs
+  exact ⟨out, h1, rt, rs, h2, h4⟩
+
+/-- Non-vacuity of the hypotheses: the fresh formatter state, the texts "hello world" / "hello there". -/
+example : (phInit [] []) = doTrees [] (phInit [] []) ∧ (phInit [] []).counter < 0x110000 ∧
+    "hello world".toList.length + "hello there".toList.length + 3 ≤ 0xD800 ∧
+    (∀ c ∈ "hello world".toList, c.toNat ≤ phStart) ∧ (∀ c ∈ "hello there".toList, c.toNat ≤ phStart) := by
+  refine ⟨rfl, by decide +kernel, by decide, by decide, by decide⟩
 
 /-- Non-vacuity: two ghosts around the insertion point. -/
 example :
